@@ -214,7 +214,7 @@ impl PoolCase {
         };
         // Same acceptance rule as the model's `begin`.
         let Some(t0) = t0 else { return case };
-        if ps == 0 || bs == 0 || ps > 32768 || !ps.is_power_of_two() || ps * bs > (8 << 20) {
+        if ps == 0 || bs == 0 || ps > 32768 || !ps.is_power_of_two() || ps * bs > (16 << 30) || bs >= (1 << 31) {
             case.ps = 0;
             return case;
         }
@@ -229,8 +229,18 @@ impl PoolCase {
         let bgid = simk::with_ring(rfd, |r, _| *r.pbufs.keys().next().unwrap());
         let entries = simk::with_ring(rfd, |r, _| r.available_buffers(bgid));
         let base = entries.iter().find(|e| e.0 == 0).map(|e| e.1 as usize).expect("buffer 0");
-        for i in 0..ps * bs {
-            unsafe { *((base + i) as *mut u8) = canary(i) };
+        if ps * bs <= (8 << 20) {
+            for i in 0..ps * bs {
+                unsafe { *((base + i) as *mut u8) = canary(i) };
+            }
+        } else {
+            // huge pool (untouched virtual memory): only the head of every buffer
+            case.feats.push("huge-pool".into());
+            for b in 0..ps {
+                for i in b * bs..b * bs + 64 {
+                    unsafe { *((base + i) as *mut u8) = canary(i) };
+                }
+            }
         }
         // Pre-advance both 16-bit counters by `t0`: the state after `t0`
         // select/release cycles in ring order (entry `i` still names buffer `i`).
@@ -336,7 +346,8 @@ impl PoolCase {
     }
 
     fn slot_bytes(&self, bid: usize) -> Vec<u8> {
-        unsafe { std::slice::from_raw_parts((self.base + bid * self.bs) as *const u8, self.bs) }.to_vec()
+        // (the head of the buffer is enough for huge buffers: nothing writes further)
+        unsafe { std::slice::from_raw_parts((self.base + bid * self.bs) as *const u8, self.bs.min(1 << 16)) }.to_vec()
     }
 
     fn next_fill(&mut self) -> u8 {
@@ -721,7 +732,9 @@ impl PoolCase {
             if let Some(h) = self.held.iter_mut().find(|h| h.bid == toff / bs) {
                 let at = toff % bs;
                 for k in 0..res as usize {
-                    h.bytes[at + k] = fill;
+                    if at + k < h.bytes.len() {
+                        h.bytes[at + k] = fill;
+                    }
                 }
             }
         }
@@ -1021,7 +1034,7 @@ impl PoolCase {
     fn gen_kpost(&self, rng: &mut Rng, i: usize) -> String {
                 let o = &self.ops[i];
                 if o.select {
-                    let bs = self.bs as u64;
+                    let bs = (self.bs as u64).min(1 << 12);
                     match rng.weighted(&[20, 2, 2, 4, 1]) {
                         0 => {
                             let n = if rng.chance(1, 4) { bs } else { rng.range(1, bs) };
@@ -1037,7 +1050,7 @@ impl PoolCase {
                 } else {
                     let spare = o.target.1 as u64;
                     match rng.weighted(&[8, 1, 2]) {
-                        0 if spare > 0 => format!("pool kpost {i} {} 0 0", rng.range(1, spare)),
+                        0 if spare > 0 => format!("pool kpost {i} {} 0 0", rng.range(1, spare.min(1 << 12))),
                         2 => format!("pool kpost {i} -{} 0 0", rng.pick(&[libc::ECANCELED, libc::EINTR, libc::EIO])),
                         _ => format!("pool kpost {i} 0 0 0"),
                     }
@@ -1146,7 +1159,7 @@ impl Case for PoolCase {
             6 => "pool rpoll".into(),
             7 => {
                 let j = *rng.pick(&live);
-                let bs = self.bs as u64;
+                let bs = (self.bs as u64).min(1 << 12);
                 match rng.below(6) {
                     0 => format!("pool edit {j} truncate {}", rng.below(bs + 2)),
                     1 => format!("pool edit {j} clear"),
@@ -1362,7 +1375,12 @@ impl Comp for PoolComp {
             6 => 1024,
             _ => 32768,
         };
-        let bs = if ps >= 1024 { *rng.pick(&[1u64, 8, 64]) } else { *rng.pick(&[1u64, 3, 8, 8, 64, 4096]) };
+        let mut bs = if ps >= 1024 { *rng.pick(&[1u64, 8, 64]) } else { *rng.pick(&[1u64, 3, 8, 8, 64, 4096]) };
+        let mut ps = ps;
+        if rng.chance(1, 50) {
+            // pools larger than 4 GiB (untouched memory): offsets beyond 32 bits
+            (ps, bs) = *rng.pick(&[(8u64, 1u64 << 30), (16, 1 << 29), (32768, 1 << 18), (64, 1 << 27), (8, (1 << 30) + 4096), (4, (1u64 << 31) - 4096)]);
+        }
         let t0 = match rng.below(5) {
             0 | 1 => 0,
             2 => 65536 - rng.range(1, 2 * ps.min(64) + 2),
